@@ -107,7 +107,11 @@ def public_call(seq, op):
     elif op == "split":
         seq.split([5, 7])
     elif op == "overwrite_absolute_messages":
-        seq.overwrite_absolute_messages([P.mk(m) for m in OVERWRITE])
+        # the list may arrive in any order: overwrite inserts each message at its time
+        ms = [P.mk(m) for m in OVERWRITE]
+        k = len(seq.abs._messages) % 3
+        ms = ms if k == 0 else (ms[::-1] if k == 1 else ms[2:] + ms[:2])
+        seq.overwrite_absolute_messages(ms)
     elif op == "overwrite_relative_messages":
         seq.overwrite_relative_messages([P.mk(m) for m in P.abs_to_rel(OVERWRITE)])
     elif op == "refresh":
